@@ -2,9 +2,15 @@
 
 package verifsim
 
-import "go.opentelemetry.io/collector/processor/batchprocessor"
+import (
+	"go.opentelemetry.io/collector/internal/memorylimiter"
+	"go.opentelemetry.io/collector/processor/batchprocessor"
+)
 
-// The build was made with the lock-site overlay (tools/lockinst.py): the injected hook exists.
+// The build was made with the lock-site overlay (tools/lockinst.py): the injected hooks exist.
 const lockInstrumented = true
 
 func setBatchLockYield(f func(site string)) { batchprocessor.VerifLockYield = f }
+
+// setBeforeGC: called right before the memory limiter forces a collection
+func setBeforeGC(f func()) { memorylimiter.VerifBeforeGC = f }
